@@ -548,11 +548,16 @@ def front_channels(run: core.Run, pool: core.Pool, drv: core.Driver, sets: list[
                 # buildBranches_preserves says this cannot happen
                 run.broken_tie("a real build_branches run that meets the hypotheses of buildBranches_preserves changes behaviour",
                                {"channel": "decomp.validate_branches", "rs": sets[i]["rs"], "verdict": v})
+                run.violation("front:build_branches_changes_behaviour", f"routine {v['r']}: the real graph after build_branches does not behave like the real graph before it (the theorem's hypotheses hold: the pass no longer is the modelled one): {v['verdict']} {v.get('why', '')} after test outcomes {v.get('path')}",
+                              {"rs": sets[i]["rs"], "verdict": v})
             elif bad:
                 # NOTE (W5): COUNTED, not reported as run.violation("front:build_branches_changes_behaviour", ...), as the task
                 # asks for real inputs on which the phase alone changes behaviour (later passes may repair them; the final text
                 # is judged by C02's validation as before).  The first examples are kept in BB_EXAMPLES.
                 cnt["front:build_branches_changes_behaviour"] += 1
+                # (never seen on the unchanged tree in any run; a change of the pass that makes it happen is reported with the routine set)
+                run.violation("front:build_branches_changes_behaviour", f"routine {v['r']}: the real graph after build_branches does not behave like the real graph before it: {v['verdict']} {v.get('why', '')} after test outcomes {v.get('path')}",
+                              {"rs": sets[i]["rs"], "verdict": v})
                 if len(BB_EXAMPLES) < 5:
                     BB_EXAMPLES.append({"rs": sets[i]["rs"], "verdict": v, "optimized": real[i]["opt"][v["r"]], "branches": real[i]["bb"][v["r"]], "answers": answers_of.get(i, [])[v["r"]]})
     # third and fourth rewriting phase (group_branches, invert_branches): outcomes, then the REAL graph after each pass against
@@ -596,10 +601,14 @@ def front_channels(run: core.Run, pool: core.Pool, drv: core.Driver, sets: list[
                 if bad and hyp:
                     run.broken_tie(f"a real graph that meets the hypotheses of {thm} contradicts it ({phase}: {w['verdict']})",
                                    {"channel": "decomp.validate_group", "rs": sets[i]["rs"], "routine": r, "verdict": w})
+                    run.violation(f"front:{phase}_changes_behaviour", f"routine {r}: the real graph after the {phase} step does not behave like the real graph before it (the theorem's hypotheses hold: the pass no longer is the modelled one): {w['verdict']} {w.get('why', '')} after test outcomes {w.get('path')}",
+                                  {"rs": sets[i]["rs"], "routine": r, "verdict": w})
                 elif bad:
                     # COUNTED only (like front:build_branches_changes_behaviour): later passes / the writer may compensate; the final
                     # text is judged by C02's validation as before.  First examples kept in GB_EXAMPLES.
                     cnt[f"front:{phase}_changes_behaviour"] += 1
+                    run.violation(f"front:{phase}_changes_behaviour", f"routine {r}: the real graph after the {phase} step does not behave like the real graph before it: {w['verdict']} {w.get('why', '')} after test outcomes {w.get('path')}",
+                                  {"rs": sets[i]["rs"], "routine": r, "verdict": w})
                     if len(GB_EXAMPLES) < 6:
                         GB_EXAMPLES.append({"phase": phase, "rs": sets[i]["rs"], "routine": r, "verdict": w,
                                             "before": real[i]["bb" if phase != "invert" else "gb"][r],
